@@ -1249,6 +1249,12 @@ class FnTranslator:
                             if isinstance(x, ast.Name) and isinstance(x.ctx, ast.Store) and x.id not in declared:
                                 if _re.search(r'(?<![\w.])' + _re.escape(x.id) + r'(?![\w])', outside):
                                     raise Refuse('%s: the opaque range stores into %s, which is used outside it and not declared' % (self.rel, x.id))
+                            if isinstance(x, (ast.Break, ast.Continue)) and any(
+                                    isinstance(lp, (ast.For, ast.While)) and any(y is x for y in ast.walk(lp))
+                                    for lp in ast.walk(mod)):
+                                # [loop ties C18] a break / continue of a loop nested INSIDE the range ends an iteration
+                                # of that inner loop, not of the translated one
+                                continue
                             if isinstance(x, (ast.Return, ast.Break, ast.Continue)):
                                 raise Refuse('%s: the opaque range leaves the iteration' % self.rel)
                             if isinstance(x, ast.Subscript) and isinstance(x.ctx, ast.Store) and isinstance(x.value, ast.Name) \
